@@ -1599,12 +1599,15 @@ fn inject_define_component_option(call: &mut CallExpr, name: &'static str, value
     match options.map(|options| &mut *options.expr) {
         Some(Expr::Object(object)) => {
             if !object.props.iter().any(|prop| is_option_named(prop, name)) {
-                object
-                    .props
-                    .push(PropOrSpread::Prop(Box::new(Prop::KeyValue(KeyValueProp {
-                        key: PropName::Ident(quote_ident!(name)),
-                        value: Box::new(value),
-                    }))));
+                let prop = PropOrSpread::Prop(Box::new(Prop::KeyValue(KeyValueProp {
+                    key: PropName::Ident(quote_ident!(name)),
+                    value: Box::new(value),
+                })));
+                // options the user spreads in at runtime win over the injected one
+                match object.props.iter().position(|prop| prop.is_spread()) {
+                    Some(index) => object.props.insert(index, prop),
+                    None => object.props.push(prop),
+                }
             }
         }
         Some(..) => {
